@@ -12,6 +12,11 @@ package main
 //          T_k = Tf' if k = n-1 else Tr';   e(i,x) = emission of class StateMap[i]
 // Everything else (likelihood, marginals, alpha/beta, set posteriors, Viterbi optimum)
 // is a sum / max over the explicit list of all m^n paths.
+// Constrained and hierarchical models (structure.go): the matrix is supplied normalised
+// and tie-consistent, so Tr' = Tr; Tf' = the tied normalisation (the library's definition
+// of Normalize for these matrix types, solved independently) of Tr with the non-final
+// columns set to 0.  Every number comes from the parameters the CALLER supplied; nothing
+// is read back from the configured object.
 
 import (
 	"fmt"
@@ -27,6 +32,10 @@ type sem struct {
 	tf  [][]float64
 	ok  bool
 	why string
+	// modelOnly: no reference for the last transition exists (the final-state restriction
+	// contradicts a tie of the structured matrix), so no path enumeration is possible; the
+	// model is still built and configured and the model-level checks run.
+	modelOnly bool
 }
 
 func inSet(s []int, i int) bool {
@@ -41,6 +50,23 @@ func inSet(s []int, i int) bool {
 func semantics(md Model) *sem {
 	m := md.M
 	s := &sem{m: m, ok: true}
+	groups := md.tieGroups()
+	if md.Kind != kindPlain {
+		if md.Kind == kindHierarchical && md.Tree == nil {
+			s.ok, s.why = false, "hierarchical-model-without-tree"
+			return s
+		}
+		if !groupsValid(m, groups) {
+			s.ok, s.why = false, "invalid-tie-structure"
+			return s
+		}
+		if !tieConsistent(md.Tr, groups) {
+			// the enumerator only emits matrices that satisfy their ties (then the supplied
+			// matrix IS the normalised one); anything else has no caller-side reference
+			s.ok, s.why = false, "supplied-matrix-violates-its-ties"
+			return s
+		}
+	}
 	s.pi = make([]float64, m)
 	sum := 0.0
 	for i := 0; i < m; i++ {
@@ -81,6 +107,56 @@ func semantics(md Model) *sem {
 			if md.Final == nil || inSet(md.Final, j) {
 				s.tf[i][j] = md.Tr[i][j] / fs
 			}
+		}
+	}
+	if md.Kind != kindPlain {
+		// structured matrices are supplied normalised (rows sum to one, ties hold): the
+		// reference for all but the last transition is the supplied matrix itself
+		for i := 0; i < m; i++ {
+			rs := 0.0
+			for j := 0; j < m; j++ {
+				rs += md.Tr[i][j]
+			}
+			if rs != 1 {
+				s.ok, s.why = false, "structured-matrix-not-supplied-normalised"
+				return s
+			}
+		}
+		if md.Final != nil && len(groups) > 0 {
+			// a tie group with mass both on final and on non-final columns: "equal" and
+			// "zero outside the final states" contradict each other
+			for _, g := range groups {
+				fin, non := false, false
+				for _, c := range g {
+					if md.Tr[c[0]][c[1]] == 0 {
+						continue
+					}
+					if inSet(md.Final, c[1]) {
+						fin = true
+					} else {
+						non = true
+					}
+				}
+				if fin && non {
+					s.ok, s.why, s.modelOnly = false, "tie-group-straddles-final-state-boundary", true
+					return s
+				}
+			}
+			xi := make([][]float64, m)
+			for i := range xi {
+				xi[i] = make([]float64, m)
+				for j := range xi[i] {
+					if inSet(md.Final, j) {
+						xi[i][j] = md.Tr[i][j]
+					}
+				}
+			}
+			tf, ok := solveTied(xi, groups)
+			if !ok {
+				s.ok, s.why = false, "tied-final-restriction-not-normalisable"
+				return s
+			}
+			s.tf = tf
 		}
 	}
 	return s
@@ -258,8 +334,20 @@ func (b *brute) setProb(sets [][]int) float64 {
 
 const tol = 1e-10
 
+// tolerance of a model: 1e-10, except for constrained HMMs, whose normalisation the library
+// defines through a Newton iteration that stops at a residual of 1e-8 (constrainedHmm.go,
+// computeLambda) - the reference cannot be demanded to agree more closely than that
+func tolOf(md Model) float64 {
+	if md.Kind == kindConstrained {
+		return 1e-6
+	}
+	return tol
+}
+
 // logOK: library log-value against a reference probability
-func logOK(lib, want float64) bool {
+func logOK(lib, want float64) bool { return logOKt(lib, want, tol) }
+
+func logOKt(lib, want, tol float64) bool {
 	if want == 0 {
 		return math.IsInf(lib, -1)
 	}
